@@ -31,6 +31,98 @@ func runC11(c *Ctx, r *Report) {
 	importRules(c, r, "C12", []string{"R-C12.1", "R-C12.2", "R-C12.3", "R-C12.4"}, "R-C11.8")
 	r.Doc("R-C11.9", "the loops of the fetcher (queueing links, offering hashes) process every element")
 	loopsComplete(c, r, "R-C11.9", func(fn *Fn) bool { return inPkgs(c.P, fn, "entry") && rootNamed(fn, "processQueue", "addNextEntry", "addHashesToQueue", "Fetch", "updateClock") }, "hashes after the point where the loop stops are never requested")
+	r.Doc("R-C11.11", "the gate that decides whether a hash is requested answers 'no need' only on a positive finding and otherwise always asks the caller's exclusion function: no path answers without either")
+	{
+		ex := p.FuncI("entry", "Fetcher", "exclude")
+		var resVar types.Object
+		if ex.Type.Results != nil {
+			for _, f := range ex.Type.Results.List {
+				for _, nm := range f.Names {
+					resVar = p.ObjOf(ex, nm)
+				}
+			}
+		}
+		shouldF := p.Field("entry", "Fetcher", "shouldExclude")
+		ef := &Flow{P: p, Fn: ex, Entry: Facts{}}
+		ef.Node = func(n ast.Node, f Facts) {
+			walkNoLit(n, func(nd ast.Node) bool {
+				if call, ok := nd.(*ast.CallExpr); ok {
+					if v, _ := p.FieldSel(ex, call.Fun); v == shouldF {
+						f["asked"] = true
+					}
+				}
+				return true
+			})
+			for _, id := range assignedIdents(n) {
+				if resVar != nil && p.ObjOf(ex, id) == resVar {
+					delete(f, "positive")
+				}
+			}
+		}
+		ef.Edge = func(cond ast.Expr, taken bool, f Facts) {
+			for _, a := range splitCond(cond, taken) {
+				if id, ok := ast.Unparen(a.E).(*ast.Ident); ok && resVar != nil && p.ObjOf(ex, id) == resVar && a.Truth {
+					f["positive"] = true
+				}
+			}
+		}
+		ef.Run()
+		nx := 0
+		ef.Exits(func(_ *cfgBlk, ret *ast.ReturnStmt, at Facts) {
+			nx++
+			pos := ex.Body.Rbrace
+			if ret != nil {
+				pos = ret.Pos()
+				// an explicit `return true` is a positive answer as well
+				if len(ret.Results) == 1 {
+					if id, ok := ast.Unparen(ret.Results[0]).(*ast.Ident); ok && id.Name == "true" {
+						at = at.Clone()
+						at["positive"] = true
+					}
+				}
+			}
+			r.Check(at["asked"] || at["positive"], "R-C11.11", r.Key("R-C11.11", ex, "exit", ""), pos,
+				"the gate answers after a positive finding or after asking the caller's exclusion function",
+				"the exclusion gate can answer without a positive finding and without asking the caller's ShouldExclude: hashes the caller excluded are requested from the store")
+		})
+		r.Floor("R-C11.11", "exits of the exclusion gate", nx, 2)
+	}
+	r.Doc("R-C11.10", "the fetcher's mutexes are released exactly once on every exit of the dispatcher, of every worker and of the helpers: a worker that ends while holding the process mutex stalls the dispatcher and every other worker for good")
+	{
+		nops, nex := 0, 0
+		for _, op := range le.LockOps {
+			if ownerOfClass(op.Class) != "Fetcher" {
+				continue
+			}
+			nops++
+			key := r.Key("R-C11.10", op.Fn, op.Op, op.Class)
+			if op.Bad != "" {
+				r.Violate("R-C11.10", key, op.Pos, fmt.Sprintf("%s on %s(%s): %s", op.Op, op.Class, op.Base, op.Bad))
+			} else {
+				r.Hold("R-C11.10", key, op.Pos, true, fmt.Sprintf("%s on %s(%s) well-formed (defer=%v)", op.Op, op.Class, op.Base, op.Defer))
+			}
+		}
+		for _, ex := range le.Exits {
+			if ex.Fn.Pkg.PkgPath != p.pkgPath("entry") || !strings.HasPrefix(p.Pos(ex.Pos), "entry/fetcher.go") {
+				continue
+			}
+			var mine []string
+			for _, h := range ex.Held {
+				if strings.Contains(h, "|Fetcher.") {
+					mine = append(mine, h)
+				}
+			}
+			nex++
+			key := r.Key("R-C11.10", ex.Fn, "exit", "")
+			if len(mine) > 0 {
+				r.Violate("R-C11.10", key, ex.Pos, fmt.Sprintf("exit reached while still holding %v (no deferred release pending): the dispatcher, which re-acquires the mutex when its wait returns, and every later worker block forever", mine))
+			} else {
+				r.Hold("R-C11.10", key, ex.Pos, false, "no fetcher lock held at this exit")
+			}
+		}
+		r.Floor("R-C11.10", "lock operations on the fetcher's mutexes", nops, 4)
+		r.Floor("R-C11.10", "exits of fetcher functions", nex, 5)
+	}
 
 	r.Doc("control", "engine positive/negative controls analysed on every run")
 	lockControls(c, r, "control")
